@@ -189,4 +189,131 @@ theorem blocklist_before_cache_and_upstream :
       h ∈ SdnsVerif.Gen.C18.chain_order := by
   decide
 
+/-! ## 3. Persistence
+
+One `Step` is one critical section under `mu` (`mutate`), or one file-system
+call of a `persist` that holds `saveMu`; `run s steps` for an arbitrary list of
+steps is an arbitrary interleaving of any number of concurrent `Set` / `Remove`
+/ `SetBatch` / `RemoveBatch` calls (a call's `persist` may start at any later
+point, in any order relative to the others), with an I/O error possible at
+every call.  -/
+
+/-- **The persisted file converges to memory.**  For every interleaving: once
+no snapshot is waiting, no `persist` is in progress and the `persist` of the
+newest snapshot did not end in an I/O error, `<dir>/local` holds exactly the
+lines of the current in-memory list (stale snapshots that arrived late were
+dropped by the version check; failed older ones do not matter). -/
+theorem persist_converges (s0 : PState) (h0 : Init s0) (steps : List Step) :
+    let s := run s0 steps
+    s.pending = [] → s.inflight = none → s.version > 0 → s.version ∉ s.failed →
+    s.main = some (render { version := s.version, exact := s.mem.m, wild := s.mem.wild }) := by
+  intro s hp hi hv hf
+  have inv : Inv s0.main s := inv_run s0.main s0 steps (inv_init s0 h0)
+  have htop := inv.top hv
+  have hlp : s.lastPersisted = s.version := by
+    rcases inv.accounted _ htop with h | ⟨f, hf', _⟩ | h | h
+    · rw [hp] at h; cases h
+    · rw [hi] at hf'; cases hf'
+    · have := inv.lp_le; simp only at h; omega
+    · exact absurd h hf
+  rcases inv.file (by intro f hf'; rw [hi] at hf'; cases hf') with ⟨h, _⟩ | ⟨x, hx, hxv, hmain⟩
+  · omega
+  · rw [hmain]
+    have := inv.top_unique x hx (by omega)
+    have hx' : x = { version := s.version, exact := s.mem.m, wild := s.mem.wild } := by
+      cases x; simp only [Snap.mk.injEq]; simp only at this hxv; exact ⟨by omega, this.1, this.2⟩
+    rw [hx']
+
+/-- **An interruption leaves a complete file.**  At every point of every
+interleaving — in particular between any two of temp-file creation, each write,
+`fsync`, `close`, `rename` and the bookkeeping after it — the main file is
+either the file the process started with or the complete rendering of a
+snapshot the memory really went through; never a partial one.  (The partial
+content only ever lives in the temp file, the second component of `crashImage`.) -/
+theorem crash_leaves_complete_file (s0 : PState) (h0 : Init s0) (steps : List Step) :
+    let s := run s0 steps
+    (crashImage s).1 = s0.main ∨ ∃ x ∈ s.taken, (crashImage s).1 = some (render x) := by
+  intro s
+  have inv : Inv s0.main s := inv_run s0.main s0 steps (inv_init s0 h0)
+  show s.main = s0.main ∨ ∃ x ∈ s.taken, s.main = some (render x)
+  by_cases hr : ∃ f, s.inflight = some f ∧ f.stage = .renamed
+  · obtain ⟨f, hf, hst⟩ := hr
+    obtain ⟨a, _, _, _, e⟩ := inv.inflight_ok f hf
+    exact Or.inr ⟨f.snap, a, e hst⟩
+  · rcases inv.file (by intro f hf hst; exact hr ⟨f, hf, hst⟩) with ⟨_, h⟩ | ⟨x, hx, _, h⟩
+    · exact Or.inl h
+    · exact Or.inr ⟨x, hx, h⟩
+
+/-- The main file changes in exactly one step: a successful `rename` of a temp
+file that holds every line of its snapshot (written, synced, closed). -/
+theorem main_changes_only_by_complete_rename (m0 : Option (List Str)) (s : PState) (st : Step) (h : Inv m0 s) :
+    (step s st).main = s.main ∨
+      ∃ f, s.inflight = some f ∧ st = .rename true ∧ f.stage = .closed ∧ (step s st).main = some (render f.snap) := by
+  cases st with
+  | mutate op => left; unfold step; simp only; split <;> rfl
+  | begin i ok =>
+    left; unfold step; simp only
+    split
+    · rfl
+    · split
+      · rfl
+      · split
+        · rfl
+        · split <;> rfl
+  | write ok =>
+    left; unfold step; simp only
+    split
+    · split
+      · split
+        · rfl
+        · rfl
+      · rfl
+    · rfl
+  | sync ok =>
+    left; unfold step; simp only
+    split
+    · split
+      · split <;> rfl
+      · rfl
+    · rfl
+  | close ok =>
+    left; unfold step; simp only
+    split
+    · split
+      · split <;> rfl
+      · rfl
+    · rfl
+  | commit =>
+    left; unfold step; simp only
+    split
+    · split <;> rfl
+    · rfl
+  | rename ok =>
+    unfold step; simp only
+    cases hin : s.inflight with
+    | none => left; rfl
+    | some f =>
+      simp only
+      by_cases hc : f.stage = .closed
+      · rw [if_pos hc]
+        cases ok with
+        | false => left; rfl
+        | true =>
+          right
+          obtain ⟨_, _, _, hfull, _⟩ := h.inflight_ok f hin
+          exact ⟨f, rfl, rfl, hc, by simp only [if_true]; rw [hfull (by rw [hc]; decide)]⟩
+      · rw [if_neg hc]; left; rfl
+
+/-- the version check is what makes the newest snapshot win: a stale snapshot
+that reaches `persist` after a newer one is dropped (non-vacuity of
+`persist_converges`: two mutations, persisted newest first). -/
+theorem persist_converges_example :
+    let a : Str := "a.com.".toList
+    let b : Str := "*.b.com.".toList
+    let s := run {} ([.mutate (.set a), .mutate (.set b), .begin 1 true] ++ List.replicate 3 (.write true) ++
+      [.sync true, .close true, .rename true, .commit, .begin 0 true])
+    s.pending = [] ∧ s.inflight = none ∧ s.version = 2 ∧ s.failed = [] ∧
+      s.main = some [headerLine, "a.com.".toList, "*.b.com.".toList] := by
+  decide
+
 end SdnsVerif.Props.C18
